@@ -3,6 +3,8 @@ import RlboxModel.Generated
 import RlboxModel.IntConv
 import RlboxModel.Layout
 import RlboxModel.Ptr
+import RlboxModel.Range
 import RlboxModel.Lemmas.Arith
 import RlboxModel.Props.C05
 import RlboxModel.Props.C06
+import RlboxModel.Props.C10
